@@ -77,6 +77,11 @@ impl ExtendedPublicKey {
         let mut checksum = vec![0; 4];
         cursor.read_exact(&mut checksum)?;
 
+        let serialised = cursor.into_inner();
+        if serialised.len() != 82 || checksum != Hash::sha_256d(&serialised[0..78]).to_bytes()[0..4] {
+            return Err(BSVErrors::GenericError("Extended key checksum does not match!".into()));
+        }
+
         Ok(ExtendedPublicKey {
             public_key,
             chain_code,
